@@ -52,3 +52,370 @@ Qed.
 Theorem descends_fuel g : ordered g -> forall fuel from c,
   (N.to_nat from < fuel)%nat -> reach g fuel from c = descends g from c.
 Proof. intros Ho fuel from c H. unfold descends. apply reach_fuel; [exact Ho|exact H|lia]. Qed.
+
+(** ---------- indexes and records of a good state describe the same pins ---------- *)
+Definition Good (p : pst) : Prop := Inv [] p.
+
+Lemma sel_mode_spec sl m : sel_mode sl m = match sl with SAny => true | SRec => mode_eqb m MRec | SDir => mode_eqb m MDir end.
+Proof. destruct sl, m; reflexivity. Qed.
+
+Lemma in_sel_ids c sl s i :
+  In i (sel_ids c sl s) <->
+  match sl with
+  | SRec => In (c, i) (idxR s)
+  | SDir => In (c, i) (idxD s)
+  | SAny => In (c, i) (idxR s) \/ In (c, i) (idxD s)
+  end.
+Proof. destruct sl; cbn [sel_ids]; rewrite ?in_app_iff, ?mm_search_In; reflexivity. Qed.
+
+Lemma keep_spec C p c sl q :
+  Inv C p -> In q (recs (st p)) ->
+  keep sl (sel_ids c sl (st p)) q = negb ((r_cid q =? c) && sel_mode sl (r_mode q)).
+Proof.
+  intros (I1 & I2 & I3 & _) Hq. unfold keep. f_equal.
+  destruct (sel_mode sl (r_mode q)) eqn:Es; [|rewrite !andb_false_r; reflexivity].
+  rewrite !andb_true_r. apply eq_true_iff_eq. rewrite existsb_exists, N.eqb_eq. split.
+  - intros [i [Hi Ei]]. apply N.eqb_eq in Ei. subst i.
+    destruct (sel_ids_recs c sl _ I1 _ Hi) as [r [Hr Hc]].
+    rewrite (find_rec_uid _ _ I2 Hq) in Hr. inversion Hr. subst r. exact Hc.
+  - intros Hc. exists (r_id q). split; [|apply N.eqb_refl].
+    destruct (I3 q Hq) as [Hidx _]. rewrite Hc in Hidx. apply in_sel_ids.
+    destruct sl, (r_mode q); cbn [idx_of_mode get_idx] in Hidx; cbn [sel_mode] in Es; try discriminate; auto.
+Qed.
+
+Lemma hasR_agree C p c : Inv C p -> mm_hasany c (idxR (st p)) = a_hasR c (recs (st p)).
+Proof.
+  intros (I1 & I2 & I3 & _). apply eq_true_iff_eq. unfold a_hasR. rewrite mm_hasany_In, existsb_exists. split.
+  - intros [i Hi]. destruct (I1 IR c i Hi) as [r [Hr [Hc Hm]]]. apply find_rec_some in Hr.
+    exists r. split; [tauto|]. unfold is_mode. rewrite Hc, Hm, N.eqb_refl. reflexivity.
+  - intros [r [Hr Hc]]. apply andb_true_iff in Hc. destruct Hc as [Hc Hm]. apply N.eqb_eq in Hc.
+    unfold is_mode in Hm. destruct (r_mode r) eqn:Em; [|discriminate].
+    destruct (I3 r Hr) as [Hidx _]. rewrite Em, Hc in Hidx. exists (r_id r). exact Hidx.
+Qed.
+
+Lemma hasD_agree C p c : Inv C p -> mm_hasany c (idxD (st p)) = a_hasD c (recs (st p)).
+Proof.
+  intros (I1 & I2 & I3 & _). apply eq_true_iff_eq. unfold a_hasD. rewrite mm_hasany_In, existsb_exists. split.
+  - intros [i Hi]. destruct (I1 ID c i Hi) as [r [Hr [Hc Hm]]]. apply find_rec_some in Hr.
+    exists r. split; [tauto|]. unfold is_mode. rewrite Hc, Hm, N.eqb_refl. reflexivity.
+  - intros [r [Hr Hc]]. apply andb_true_iff in Hc. destruct Hc as [Hc Hm]. apply N.eqb_eq in Hc.
+    unfold is_mode in Hm. destruct (r_mode r) eqn:Em; [discriminate|].
+    destruct (I3 r Hr) as [Hidx _]. rewrite Em, Hc in Hidx. exists (r_id r). exact Hidx.
+Qed.
+
+Lemma keep_fresh sl old newid c m n : ~ In newid old -> keep sl old (mkrec newid c m n) = true.
+Proof.
+  intros H. unfold keep. cbn [r_id]. destruct (existsb (N.eqb newid) old) eqn:E; [|reflexivity].
+  apply existsb_exists in E. destruct E as [x [Hx Ex]]. apply N.eqb_eq in Ex. subst x. contradiction.
+Qed.
+
+Lemma old_not_fresh c sl s newid : OF s -> fresh newid s -> ~ In newid (sel_ids c sl s).
+Proof.
+  intros HO Hf Hin. destruct (sel_ids_recs c sl s HO _ Hin) as [r [Hr _]]. apply find_rec_some in Hr.
+  destruct Hr as [Hr1 Hr2]. apply Hf. rewrite <- Hr2. apply in_map. exact Hr1.
+Qed.
+
+(** recs after "add the new pin, then remove the old pins of [c] selected by [sl]" *)
+Lemma add_then_remove_recs newid c m n sl p :
+  Good p -> fresh newid (st p) ->
+  recs (st (snd (remove_ids c sl (sel_ids c sl (st p)) (add_pin newid c m n p)))) =
+  filter (fun q => negb ((r_cid q =? c) && sel_mode sl (r_mode q))) (recs (st p)) ++ [mkrec newid c m n].
+Proof.
+  intros HG Hf. destruct (add_then_remove_ok [] newid c m n sl p HG Hf) as (_ & _ & _ & R).
+  cbv zeta in R. rewrite R, filter_app. cbn [filter]. pose proof HG as (I1 & _).
+  rewrite keep_fresh by (apply old_not_fresh; assumption). f_equal.
+  apply filter_ext_in. intros q Hq. apply (keep_spec [] p c sl q HG Hq).
+Qed.
+
+Lemma flush_recs force p : Good p -> recs (st (flush_pins force p)) = recs (st p).
+Proof. intros HG. destruct (flush_pins_ok [] force p HG) as (_ & _ & [R _] & _). symmetry. exact R. Qed.
+
+Lemma Good_after_add_remove newid c m n sl p :
+  Good p -> fresh newid (st p) -> Good (snd (remove_ids c sl (sel_ids c sl (st p)) (add_pin newid c m n p))).
+Proof. intros HG Hf. destruct (add_then_remove_ok [] newid c m n sl p HG Hf) as (J & _). exact J. Qed.
+
+Lemma nodup_same_length {A} (l1 l2 : list A) :
+  NoDup l1 -> NoDup l2 -> (forall x, In x l1 <-> In x l2) -> length l1 = length l2.
+Proof.
+  intros H1 H2 H. apply Nat.le_antisymm; apply NoDup_incl_length; try assumption; intros x Hx; apply H; exact Hx.
+Qed.
+
+Lemma uid_filter_nodup s f : uid s -> NoDup (map r_id (filter f (recs s))).
+Proof.
+  unfold uid. induction (recs s) as [|q rs IH]; intros H; [constructor|].
+  cbn [map] in H. inversion H as [|x l Hn Hd E]. subst. cbn [filter]. destruct (f q); [|apply IH; exact Hd].
+  cbn [map]. constructor; [|apply IH; exact Hd]. intros Hin. apply Hn. apply in_map_iff in Hin.
+  destruct Hin as [r [Hr Hin]]. apply filter_In in Hin. apply in_map_iff. exists r. tauto.
+Qed.
+
+(** the recursive pins of [from]: index search and pin list agree *)
+Lemma search_agree p from :
+  Good p ->
+  let ids := mm_search from (idxR (st p)) in
+  let rs := filter (fun q => (r_cid q =? from) && is_mode MRec q) (recs (st p)) in
+  length ids = length rs /\ forall i r, ids = [i] -> rs = [r] -> find_rec i (st p) = Some r.
+Proof.
+  intros HG ids rs. pose proof HG as (I1 & I2 & I3 & _).
+  assert (Hiff : forall i, In i ids <-> In i (map r_id rs)).
+  { intros i. unfold ids, rs. rewrite mm_search_In, in_map_iff. split.
+    - intros Hi. destruct (I1 IR from i Hi) as [r [Hr [Hc Hm]]]. pose proof (find_rec_some _ _ _ Hr) as [Hr1 Hr2].
+      exists r. split; [exact Hr2|]. apply filter_In. split; [exact Hr1|]. unfold is_mode. rewrite Hc, Hm, N.eqb_refl. reflexivity.
+    - intros [r [Hr Hin]]. apply filter_In in Hin. destruct Hin as [Hin Hc]. apply andb_true_iff in Hc.
+      destruct Hc as [Hc Hm]. apply N.eqb_eq in Hc. unfold is_mode in Hm. destruct (r_mode r) eqn:Em; [|discriminate].
+      destruct (I3 r Hin) as [Hidx _]. rewrite Em, Hc, Hr in Hidx. exact Hidx. }
+  split.
+  - rewrite <- (map_length r_id rs). apply nodup_same_length; [apply mm_search_nodup|apply uid_filter_nodup; exact I2|exact Hiff].
+  - intros i r Ei Er. assert (Hin : In i (map r_id rs)) by (apply Hiff; rewrite Ei; left; reflexivity).
+    rewrite Er in Hin. cbn [map In] in Hin. destruct Hin as [Hin|[]]. subst i.
+    apply find_rec_uid; [exact I2|]. assert (Hr : In r rs) by (rewrite Er; left; reflexivity).
+    unfold rs in Hr. apply filter_In in Hr. tauto.
+Qed.
+
+(** ---------- refinement, one operation ---------- *)
+Theorem refines_step newid p o r p' :
+  Good p -> fresh newid (st p) -> exec flags_fixed newid p o = (r, p') ->
+  a_exec newid (recs (st p)) o = (r, recs (st p')) /\ Good p'.
+Proof.
+  intros HG Hf Hrun.
+  assert (HG' : Good p').
+  { destruct (exec_ok [] flags_fixed newid p o r p' HG Hf) as [J _]; [intros c []|exact Hrun|exact J]. }
+  split; [|exact HG'].
+  assert (PR : forall c n ok, pin_recursive flags_fixed newid c n ok p = (r, p') ->
+                 a_pin_recursive newid c n ok (recs (st p)) = (r, recs (st p'))).
+  { intros c n ok H. unfold pin_recursive in H. cbn [flags_fixed f_remove_then_add] in H. unfold a_pin_recursive.
+    destruct (negb ok); [inversion H; reflexivity|]. inversion H. subst r p'. f_equal.
+    change (mm_search c (idxR (st p)) ++ mm_search c (idxD (st p))) with (sel_ids c SAny (st p)).
+    rewrite flush_recs by (apply Good_after_add_remove; assumption).
+    rewrite add_then_remove_recs by assumption. f_equal. apply filter_ext. intros q. unfold not_cid.
+    cbn [sel_mode]. rewrite andb_true_r. reflexivity. }
+  assert (PD : forall c n, pin_direct flags_fixed newid c n p = (r, p') ->
+                 a_pin_direct newid c n (recs (st p)) = (r, recs (st p'))).
+  { intros c n H. unfold pin_direct in H. cbn [flags_fixed f_remove_then_add] in H. unfold a_pin_direct.
+    rewrite <- (hasR_agree [] p c HG). destruct (mm_hasany c (idxR (st p))); [inversion H; reflexivity|].
+    inversion H. subst r p'. f_equal.
+    change (mm_search c (idxD (st p))) with (sel_ids c SDir (st p)).
+    rewrite flush_recs by (apply Good_after_add_remove; assumption).
+    rewrite add_then_remove_recs by assumption. f_equal.
+    all: try (apply filter_ext; intros q; unfold not_cm, is_mode; rewrite sel_mode_spec; reflexivity). }
+  destruct o as [c rc n ok|c m n|c rc|from to unp ok|b|]; cbn [exec a_exec] in *.
+  - destruct rc; [apply PR|apply PD]; exact Hrun.
+  - destruct (m =? 0); [apply PR; exact Hrun|]. destruct (m =? 1); [apply PD; exact Hrun|].
+    inversion Hrun. reflexivity.
+  - unfold unpin in Hrun. unfold a_unpin.
+    rewrite <- (hasR_agree [] p c HG), <- (hasD_agree [] p c HG).
+    destruct (mm_hasany c (idxR (st p)) && negb rc); [inversion Hrun; reflexivity|].
+    destruct (negb (mm_hasany c (idxR (st p))) && negb (mm_hasany c (idxD (st p)))); [inversion Hrun; reflexivity|].
+    destruct (remove_pins_for_cid c SAny p) as [b p1] eqn:E.
+    destruct (remove_pins_ok [] c SAny p b p1 HG (fun H => H) E) as (J1 & _ & _ & _ & _ & R).
+    assert (Rq : recs (st p1) = filter (not_cid c) (recs (st p))).
+    { rewrite R. apply filter_ext_in. intros q Hq. rewrite (keep_spec [] p c SAny q HG Hq). unfold not_cid.
+      cbn [sel_mode]. rewrite andb_true_r. reflexivity. }
+    destruct b; inversion Hrun; subst r p'; f_equal; [rewrite flush_recs by exact J1|]; symmetry; exact Rq.
+  - unfold update in Hrun. unfold a_update.
+    destruct (search_agree p from HG) as [Hlen Hone]. cbv zeta in Hlen, Hone.
+    destruct (mm_search from (idxR (st p))) as [|fid [|x l]] eqn:Es;
+      destruct (filter (fun q => (r_cid q =? from) && is_mode MRec q) (recs (st p))) as [|rf [|y l']] eqn:Ef;
+      cbn [length] in Hlen; try discriminate Hlen; try (inversion Hrun; reflexivity).
+    destruct (from =? to); [inversion Hrun; reflexivity|].
+    rewrite <- (hasR_agree [] p to HG). destruct (mm_hasany to (idxR (st p))); [inversion Hrun; reflexivity|].
+    destruct (negb ok); [inversion Hrun; reflexivity|].
+    rewrite (Hone fid rf eq_refl eq_refl) in Hrun.
+    destruct (add_pin_ok [] p newid to MRec (r_name rf) HG Hf) as (D1 & _ & C1 & _ & R1 & _).
+    set (p1 := add_pin newid to MRec (r_name rf) p) in *.
+    assert (J1 : Good p1) by (apply D_CP_Inv; assumption).
+    destruct unp.
+    + destruct (remove_pins_for_cid from SRec p1) as [b p2] eqn:E. cbn [snd] in Hrun.
+      destruct (remove_pins_ok [] from SRec p1 b p2 J1 (fun H => H) E) as (J2 & _ & _ & _ & _ & R).
+      inversion Hrun. subst r p'. f_equal. rewrite flush_recs by exact J2. rewrite R, R1.
+      apply filter_ext_in. intros q Hq. rewrite <- R1 in Hq. rewrite (keep_spec [] p1 from SRec q J1 Hq).
+      unfold not_cm, is_mode. rewrite sel_mode_spec. reflexivity.
+    + inversion Hrun. subst r p'. f_equal. rewrite flush_recs by exact J1. symmetry. exact R1.
+  - inversion Hrun. reflexivity.
+  - inversion Hrun. subst r p'. f_equal. symmetry. apply flush_recs. exact HG.
+Qed.
+
+(** ---------- whole histories ---------- *)
+(** mechanism model (defect switches off) and pin model run side by side *)
+Fixpoint run_both (p : pst) (rs : list prec) (l : list (op * N)) : Prop :=
+  match l with
+  | [] => True
+  | (o, newid) :: rest =>
+      fresh newid (st p) ->
+      let (r, p') := exec flags_fixed newid p o in
+      let (r', rs') := a_exec newid rs o in
+      r = r' /\ rs' = recs (st p') /\ run_both p' rs' rest
+  end.
+
+Theorem refines_pinmodel : forall l p, Good p -> run_both p (recs (st p)) l.
+Proof.
+  induction l as [|[o newid] rest IH]; intros p HG; cbn [run_both]; [exact I|].
+  intros Hf. destruct (exec flags_fixed newid p o) as [r p'] eqn:E.
+  destruct (refines_step newid p o r p' HG Hf E) as [Ha HG']. rewrite Ha.
+  split; [reflexivity|]. split; [reflexivity|]. apply IH. exact HG'.
+Qed.
+
+(** ---------- the queries read the same pins from the indexes as from the pin list ---------- *)
+Lemma name_of_uid s r : uid s -> In r (recs s) -> name_of (r_id r) s = r_name r.
+Proof. intros HU Hr. unfold name_of. rewrite (find_rec_uid s r HU Hr). reflexivity. Qed.
+
+Lemma view_agree_gen C p (m : mode) :
+  Inv C p -> forall e,
+  In e (map (fun x => (fst x, name_of (snd x) (st p))) (get_idx (idx_of_mode m) (st p))) <->
+  In e (map (fun r => (r_cid r, r_name r)) (filter (is_mode m) (recs (st p)))).
+Proof.
+  intros (I1 & I2 & I3 & _) e. rewrite !in_map_iff. split.
+  - intros [[c i] [He Hin]]. cbn [fst snd] in He. destruct (I1 _ c i Hin) as [r [Hr Hok]].
+    pose proof (find_rec_some _ _ _ Hr) as [Hr1 Hr2]. exists r. split.
+    + rewrite <- He. unfold name_of. rewrite Hr. destruct m; destruct Hok as [Hc _]; rewrite Hc; reflexivity.
+    + apply filter_In. split; [exact Hr1|]. unfold is_mode. destruct m; destruct Hok as [_ Hm]; rewrite Hm; reflexivity.
+  - intros [r [He Hin]]. apply filter_In in Hin. destruct Hin as [Hin Hm]. unfold is_mode in Hm.
+    exists (r_cid r, r_id r). split.
+    + cbn [fst snd]. rewrite (name_of_uid _ _ I2 Hin). exact He.
+    + destruct (I3 r Hin) as [Hidx _]. destruct (r_mode r), m; try discriminate; exact Hidx.
+Qed.
+
+Theorem views_agree C p :
+  Inv C p ->
+  (forall e, In e (vR (view_store (st p))) <-> In e (vR (view_pins (recs (st p))))) /\
+  (forall e, In e (vD (view_store (st p))) <-> In e (vD (view_pins (recs (st p))))).
+Proof.
+  intros HI. split; intros e.
+  - apply (view_agree_gen C p MRec HI e).
+  - apply (view_agree_gen C p MDir HI e).
+Qed.
+
+Lemma has_equiv c (l1 l2 : list (N * N)) : (forall e, In e l1 <-> In e l2) -> has c l1 = has c l2.
+Proof.
+  intros H. apply eq_true_iff_eq. unfold has. rewrite !existsb_exists.
+  split; intros [e [He Hc]]; exists e; (split; [apply H; exact He|exact Hc]).
+Qed.
+
+Lemma vias_equiv g (v1 v2 : view) c :
+  (forall e, In e (vR v1) <-> In e (vR v2)) -> forall r, In r (vias g v1 c) <-> In r (vias g v2 c).
+Proof.
+  intros H r. unfold vias. rewrite !filter_In, !in_map_iff.
+  split; intros [[e [He Hin]] Hd]; (split; [exists e; split; [exact He|apply H; exact Hin]|exact Hd]).
+Qed.
+
+(** every decision a query takes — is [c] recursively / directly pinned, from which recursive
+    roots does it descend — is the same on the code's view and on the pin model's view *)
+Theorem queries_agree C p g c :
+  Inv C p ->
+  let vs := view_store (st p) in let vp := view_pins (recs (st p)) in
+  has c (vR vs) = has c (vR vp) /\ has c (vD vs) = has c (vD vp) /\
+  (forall r, In r (vias g vs c) <-> In r (vias g vp c)) /\
+  (forall e, In e (vR vs) <-> In e (vR vp)) /\ (forall e, In e (vD vs) <-> In e (vD vp)).
+Proof.
+  intros HI vs vp. destruct (views_agree C p HI) as [HR HD].
+  split; [apply has_equiv; exact HR|]. split; [apply has_equiv; exact HD|].
+  split; [apply vias_equiv; exact HR|]. split; assumption.
+Qed.
+
+(** ---------- the pin model itself ---------- *)
+(** at most one pin per (CID, mode) — NOT per CID: Update onto a directly pinned CID leaves a
+    recursive and a direct pin; the queries report recursive first *)
+Definition cm (r : prec) : N * bool := (r_cid r, match r_mode r with MRec => true | MDir => false end).
+Definition one_per_mode (rs : list prec) : Prop := NoDup (map cm rs).
+
+Lemma nodup_map_filter {A B} (f : A -> B) (g : A -> bool) l : NoDup (map f l) -> NoDup (map f (filter g l)).
+Proof.
+  induction l as [|a l IH]; intros H; [constructor|]. cbn [map] in H. inversion H as [|x y Hn Hd E]. subst.
+  cbn [filter]. destruct (g a); [|apply IH; exact Hd]. cbn [map]. constructor; [|apply IH; exact Hd].
+  intros Hin. apply Hn. apply in_map_iff in Hin. destruct Hin as [b [Hb Hin]]. apply filter_In in Hin.
+  apply in_map_iff. exists b. tauto.
+Qed.
+
+Lemma one_per_mode_snoc rs r : one_per_mode rs -> (forall q, In q rs -> cm q <> cm r) -> one_per_mode (rs ++ [r]).
+Proof.
+  unfold one_per_mode. intros H Hne. rewrite map_app. cbn [map]. apply nodup_snoc; [exact H|].
+  intros Hin. apply in_map_iff in Hin. destruct Hin as [q [Hq Hin]]. exact (Hne q Hin Hq).
+Qed.
+
+Theorem a_exec_one_per_mode newid rs o :
+  one_per_mode rs -> one_per_mode (snd (a_exec newid rs o)).
+Proof.
+  intros H.
+  assert (PR : forall c n ok, one_per_mode (snd (a_pin_recursive newid c n ok rs))).
+  { intros c n ok. unfold a_pin_recursive. destruct (negb ok); [exact H|]. cbn [snd].
+    apply one_per_mode_snoc; [apply nodup_map_filter; exact H|].
+    intros q Hq E. apply filter_In in Hq. destruct Hq as [_ Hq]. unfold not_cid in Hq.
+    unfold cm in E. cbn [r_cid] in E. inversion E as [[Ec Em]]. rewrite Ec, N.eqb_refl in Hq. discriminate. }
+  assert (PD : forall c n, one_per_mode (snd (a_pin_direct newid c n rs))).
+  { intros c n. unfold a_pin_direct. destruct (a_hasR c rs); [exact H|]. cbn [snd].
+    apply one_per_mode_snoc; [apply nodup_map_filter; exact H|].
+    intros q Hq E. apply filter_In in Hq. destruct Hq as [_ Hq]. unfold not_cm, is_mode in Hq.
+    unfold cm in E. cbn [r_cid r_mode] in E. inversion E as [[Ec Em]]. rewrite Ec, N.eqb_refl in Hq.
+    destruct (r_mode q); [discriminate Em|discriminate Hq]. }
+  destruct o as [c rc n ok|c m n|c rc|from to unp ok|b|]; cbn [a_exec].
+  - destruct rc; [apply PR|apply PD].
+  - destruct (m =? 0); [apply PR|]. destruct (m =? 1); [apply PD|exact H].
+  - unfold a_unpin. destruct (a_hasR c rs && negb rc); [exact H|].
+    destruct (negb (a_hasR c rs) && negb (a_hasD c rs)); [exact H|]. cbn [snd]. apply nodup_map_filter. exact H.
+  - unfold a_update. destruct (filter (fun q => (r_cid q =? from) && is_mode MRec q) rs) as [|r [|x l]]; try exact H.
+    destruct (from =? to); [exact H|]. destruct (a_hasR to rs) eqn:Eh; [exact H|].
+    destruct (negb ok); [exact H|]. cbn [snd].
+    assert (Hs : one_per_mode (rs ++ [mkrec newid to MRec (r_name r)])).
+    { apply one_per_mode_snoc; [exact H|]. intros q Hq E. unfold cm in E. cbn [r_cid r_mode] in E.
+      inversion E as [[Ec Em]]. assert (X : a_hasR to rs = true); [|congruence].
+      unfold a_hasR. apply existsb_exists. exists q. split; [exact Hq|]. unfold is_mode.
+      rewrite Ec, N.eqb_refl. destruct (r_mode q); [reflexivity|discriminate Em]. }
+    destruct unp; [apply nodup_map_filter; exact Hs|exact Hs].
+  - exact H.
+  - exact H.
+Qed.
+
+(** re-pinning replaces the name; recursive supersedes direct: after a successful recursive
+    pin the CID has exactly the new pin *)
+Theorem a_repin_replaces newid c n rs :
+  filter (fun q => r_cid q =? c) (snd (a_pin_recursive newid c n true rs)) = [mkrec newid c MRec n].
+Proof.
+  unfold a_pin_recursive. cbn [negb snd]. rewrite filter_app. cbn [filter r_cid]. rewrite N.eqb_refl.
+  replace (filter (fun q => r_cid q =? c) (filter (not_cid c) rs)) with (@nil prec); [reflexivity|].
+  symmetry. induction rs as [|q rs IH]; [reflexivity|]. cbn [filter]. unfold not_cid at 1.
+  destruct (r_cid q =? c) eqn:E; cbn [negb]; [exact IH|]. cbn [filter]. rewrite E. exact IH.
+Qed.
+
+(** ---------- the defects of the current code ---------- *)
+(** C22-1: a recursive re-pin whose fetch fails returns an error and the CID is unpinned *)
+Theorem repin_error_refuted :
+  exists p newid o r p' c,
+    Good p /\ fresh newid (st p) /\ exec flags_now newid p o = (r, p') /\ r <> ROk /\
+    pinned (st p) c = true /\ pinned (st p') c = false.
+Proof.
+  set (p := snd (exec flags_now 1 (open_pinner empty_store) (OPin 7 true 1 true))).
+  exists p, 2, (OPin 7 true 2 false), RFetch. eexists. exists 7.
+  split.
+  { destruct (exec_ok [] flags_now 1 (open_pinner empty_store) (OPin 7 true 1 true) (fst (exec flags_now 1 (open_pinner empty_store) (OPin 7 true 1 true))) p Inv_empty) as [J _].
+    - intros [].
+    - intros c [].
+    - reflexivity.
+    - exact J. }
+  split; [vm_compute; intros [H|[]]; discriminate|].
+  split; [vm_compute; reflexivity|]. split; [discriminate|]. split; vm_compute; reflexivity.
+Qed.
+
+(** C22-2: IsPinnedWithType(c, Indirect) reports a recursive root that lies below another
+    recursive root as indirectly pinned; the pin model (and CheckIfPinnedWithType) do not *)
+Theorem indirect_root_refuted :
+  exists g p c,
+    Good p /\ ordered g /\
+    answer flags_now g (view_store (st p)) (QIsPinned c 2) = AIs true 3 [1] /\
+    answer flags_fixed g (view_pins (recs (st p))) (QIsPinned c 2) = AIs false 0 [].
+Proof.
+  set (p1 := snd (exec flags_now 1 (open_pinner empty_store) (OPin 1 true 0 true))).
+  set (p2 := snd (exec flags_now 2 p1 (OPin 0 true 0 true))).
+  exists [[]; [0]], p2, 0.
+  assert (G1 : Good p1).
+  { destruct (exec_ok [] flags_now 1 (open_pinner empty_store) (OPin 1 true 0 true) (fst (exec flags_now 1 (open_pinner empty_store) (OPin 1 true 0 true))) p1 Inv_empty) as [J _];
+      [intros []|intros c []|reflexivity|exact J]. }
+  split.
+  { destruct (exec_ok [] flags_now 2 p1 (OPin 0 true 0 true) (fst (exec flags_now 2 p1 (OPin 0 true 0 true))) p2 G1) as [J _];
+      [vm_compute; intros [H|[]]; discriminate|intros c []|reflexivity|exact J]. }
+  split.
+  { intros i ch Hin. unfold children in Hin.
+    destruct (N.to_nat i) as [|[|k]] eqn:E; cbn [nth] in Hin.
+    - destruct Hin.
+    - destruct Hin as [H|[]]. subst ch. lia.
+    - destruct k; destruct Hin. }
+  split; vm_compute; reflexivity.
+Qed.
